@@ -528,7 +528,22 @@ class Interp:
             if isinstance(v, tuple) and v != TOP:
                 return ("as", v, p[1])
             return TOP
-        if k in ("idx", "cidx", "sub"):
+        if k in ("idxv", "cidx"):
+            i = p[1]
+            base = v
+            while isinstance(base, tuple) and base and base[0] in ("deref", "ref"):
+                base = base[1]
+            if isinstance(base, tuple) and base and base[0] == "bufslice" and (isinstance(i, int) or isinstance(i, tuple)):
+                # a byte of a view onto a byte buffer: named by the buffer and its offset in the stream
+                off = lin_add(base[2], i, 1)
+                if off is not None:
+                    return ("bufread", base[1], tform(off), 1)
+            if isinstance(base, tuple) and base and base[:2] == ("agg", "array") and isinstance(i, int) and 0 <= i < len(base) - 2:
+                return base[2 + i]
+            if isinstance(v, tuple) and v != TOP:
+                return ("index", v)
+            return TOP
+        if k in ("idx", "sub"):
             if isinstance(v, tuple) and v != TOP:
                 return ("index", v)
             return TOP
@@ -555,6 +570,9 @@ class Interp:
                     v = self.read_addr(st, root, path)
                     if isinstance(v, Ref):
                         root, path = v.root, v.path
+                if p[0] == "idx":
+                    # slice / array element: remember the index *value* (the index local belongs to this frame)
+                    p = ("idxv", self.read_root(st, ("L", frame, p[1])))
                 path = path + (p,)
         return root, path
 
@@ -892,8 +910,18 @@ class Interp:
         if k == "unop":
             a = self.operand(st, frame, rv.ops[0])
             if rv.op == "Not":
+                oty = (rv.j.get("oty") or "bool").split("::")[-1]
                 if isinstance(a, int):
+                    if oty in INT_BITS and oty != "bool":
+                        # bitwise complement within the operand's width (signed types: two's complement value)
+                        bits = INT_BITS[oty]
+                        r = (~a) & ((1 << bits) - 1)
+                        if oty.startswith("i") and r >= (1 << (bits - 1)):
+                            r -= 1 << bits
+                        return r
                     return 0 if a else 1
+                if oty in INT_BITS and oty != "bool":
+                    return ("unop", "Not", tform(a))
                 if isinstance(a, tuple) and a and a[0] == "cmp":
                     return ("cmp", CMP_NEG[a[1]], a[2], a[3], a[4])
                 if isinstance(a, tuple) and a and a[0] == "not":
@@ -903,6 +931,11 @@ class Interp:
                 r = lin_scale(a, -1)
                 return r if r is not None else TOP
             if rv.op == "PtrMetadata":
+                base = tform(a)
+                while isinstance(base, tuple) and base and base[0] in ("deref", "ref"):
+                    base = base[1]
+                if isinstance(base, tuple) and base and base[0] == "bufslice" and base not in st.bufs:
+                    return base[3]  # a view that nothing consumes from: its length is what it was cut to
                 return ("len", tform(a))
             return ("unop", rv.op, tform(a))
         if k == "cast":
@@ -1013,6 +1046,15 @@ class Interp:
                 return {"Div": a // b, "Rem": a % b, "Shl": a << b, "Shr": a >> b}[base]
             except Exception:
                 return TOP
+        if base == "Shl" and isinstance(b, int) and isinstance(a, tuple) and a and a[0] == "bufread" and b % 8 == 0:
+            return ("binop", "Shl", tform(a), b)
+        if base == "BitOr":
+            # big-endian assembly of adjacent bytes of one buffer: (hi << 8*w_lo) | lo
+            for hi_, lo_ in ((a, b), (b, a)):
+                if isinstance(hi_, tuple) and hi_ and hi_[:2] == ("binop", "Shl") and isinstance(hi_[2], tuple) and hi_[2][0] == "bufread" and isinstance(lo_, tuple) and lo_ and lo_[0] == "bufread":
+                    h = hi_[2]
+                    if h[1] == lo_[1] and isinstance(lo_[3], int) and hi_[3] == 8 * lo_[3] and lin_add(h[2], h[3], 1) == lo_[2]:
+                        return ("bufread", h[1], h[2], h[3] + lo_[3])
         if base == "BitAnd" and (a == 0 or b == 0):
             return 0
         if base == "BitOr" and (a == 1 or b == 1) and oty == "bool":
@@ -1883,6 +1925,18 @@ def m_from_int(I, st, t, args, site, depth):
     return None
 
 
+def m_from_be_bytes(I, st, t, args, site, depth):
+    """uN::from_be_bytes([b0, b1, ..]) of adjacent bytes of one buffer = the big-endian read of that width"""
+    v = tform(args[0]) if args else None
+    if isinstance(v, tuple) and v[:2] == ("agg", "array"):
+        bs = v[2:]
+        if bs and all(isinstance(x, tuple) and x and x[0] == "bufread" and x[3] == 1 and x[1] == bs[0][1] for x in bs):
+            ok = all(lin_add(bs[0][2], i, 1) == x[2] for i, x in enumerate(bs))
+            if ok:
+                return [(st, ("bufread", bs[0][1], bs[0][2], len(bs)))]
+    return None
+
+
 def m_unwrap_or(I, st, t, args, site, depth):
     v = args[0]
     if isinstance(v, Struct) and v.variant in ("Ok", "Some"):
@@ -1998,6 +2052,7 @@ DEFAULT_MODELS = {
 }
 DEFAULT_MODELS = {k: v for k, v in DEFAULT_MODELS.items() if v is not None}
 SUFFIX_MODELS = [
+    ("::from_be_bytes", m_from_be_bytes),
     ("::saturating_sub", m_saturating),
     ("::saturating_add", m_saturating),
     ("FromPrimitive::from_u8", m_from_u8),
